@@ -18,15 +18,75 @@ Theorem balanced_sound_all : forall prog,
 Proof. exact Checker.balanced_sound_all. Qed.
 Print Assumptions balanced_sound_all.
 
-(* ... in particular a function without a declared summary returns holding
-   exactly the locks it was called with: the signed count of every lock,
-   relative to function entry, is zero. *)
+(* ... in particular a function whose summary declares no net effect returns
+   holding exactly the locks it was called with: the signed count of every
+   lock, relative to function entry, is zero. *)
 Theorem balanced_sound : forall prog,
   forallb (balanced prog) (map fst prog) = true ->
-  forall f body, assoc f prog = Some (body, neutral) ->
+  forall f body sm, assoc f prog = Some (body, sm) -> s_delta sm = [] -> s_dirty sm = [] ->
   forall h, fn_returns prog f h -> forall i, cnt h i = 0%Z.
 Proof. exact Checker.balanced_sound. Qed.
 Print Assumptions balanced_sound.
+
+(* A function may only release what it holds: no run of any function --
+   returning or panicking, in its body, in its deferred statements, in
+   anything it calls at any depth -- executes an Unlock/RUnlock of a mutex
+   whose count relative to function entry, plus the declared entry
+   assumption, is not positive, or calls a function whose entry assumption
+   it does not meet ([OFault] propagates to the top from wherever it
+   arises).  An Unlock-then-Lock slip with net effect zero is a fault. *)
+Theorem balanced_no_fault : forall prog,
+  forallb (balanced prog) (map fst prog) = true -> forall f, ~ fn_faults prog f.
+Proof. exact Checker.balanced_no_fault. Qed.
+Print Assumptions balanced_no_fault.
+
+(* Panicking paths: deferred statements run (a deferred call that panics
+   does not stop the older ones); when the panic is the function's own,
+   every lock covered by a pending deferred statement is back at the
+   declared net effect afterwards.  Only locks no pending defer covers are
+   exempt (no recover() in the analysed packages: the process ends). *)
+Theorem balanced_panic_covered : forall prog,
+  forallb (balanced prog) (map fst prog) = true ->
+  forall f sm ds h, fn_panics_own prog f sm ds h ->
+  forall i, covered prog ds i = true -> in_piles (s_dirty sm) i = false ->
+  cnt h i = cnt (s_delta sm) i.
+Proof. exact Checker.balanced_panic_covered. Qed.
+Print Assumptions balanced_panic_covered.
+
+(* A function whose summary says it does not panic never does (explicit
+   panic statements, its own or its callees'). *)
+Theorem balanced_no_panic : forall prog,
+  forallb (balanced prog) (map fst prog) = true ->
+  forall f sm o1 fr1 o2 fr2, fn_run prog f sm o1 fr1 o2 fr2 -> s_panics sm = false ->
+  is_panic o1 = false /\ is_panic o2 = false.
+Proof. exact Checker.balanced_no_panic. Qed.
+Print Assumptions balanced_no_panic.
+
+(* Non-vacuity of the fault: Unlock-then-Lock has net effect zero and is
+   rejected; with the entry assumption declared it is accepted, and a caller
+   that does not hold the lock is rejected. *)
+Example slip_prog : program :=
+  [("slip"%string, (Seqs [Unlock "l"; Lock "l"], neutral))].
+Example slip_rejected : balanced slip_prog "slip" = false.
+Proof. vm_compute. reflexivity. Qed.
+Example slip_faults : fn_faults slip_prog "slip".
+Proof.
+  exists (Seqs [Unlock "l"; Lock "l"]), neutral. split; [reflexivity|]. left.
+  eexists. apply E_SeqX; [apply E_RelFault; reflexivity | discriminate].
+Qed.
+Example wait_prog : program :=
+  [("wait"%string, (Seqs [Unlock "l"; Lock "l"], mkSum [] [] [((MW, "l"%string), 1%Z)] [] false));
+   ("good"%string, (Seqs [Lock "l"; Call "wait" (mkS [] []); Unlock "l"], neutral));
+   ("bad"%string, (Call "wait" (mkS [] []), neutral))].
+Example wait_accepted : map (balanced wait_prog) ["wait"; "good"; "bad"]%string = [true; true; false].
+Proof. vm_compute. reflexivity. Qed.
+(* a deferred Unlock that would run on a panic raised while the mutex is
+   released is rejected; the same panic before the release is accepted *)
+Example panic_prog : program :=
+  [("p1"%string, (Seqs [Lock "l"; Defer (Unlock "l"); Unlock "l"; Alts [Panic; Skip]; Lock "l"], mkSum [] [] [] [] true));
+   ("p2"%string, (Seqs [Lock "l"; Defer (Unlock "l"); Alts [Panic; Skip]; Unlock "l"; Lock "l"], mkSum [] [] [] [] true))].
+Example panic_cases : map (balanced panic_prog) ["p1"; "p2"]%string = [false; true].
+Proof. vm_compute. reflexivity. Qed.
 
 (* Dynamic side: the model the harness compares the code with satisfies the
    trace predicate for all call sequences, and the predicate reports every
@@ -97,3 +157,45 @@ Theorem backoff_state_reachable :
   exists s, reachable s /\ waiting s 0 2 /\ owner s 1 = None /\ owner s 2 = Some 1.
 Proof. exact demo_reaches_block. Qed.
 Print Assumptions backoff_state_reachable.
+
+(* ---- the sequential LockPile runner satisfies the monitor (Locks/PileRunner.v) ---- *)
+From VF Require Import Common.Verdict Locks.Corr Locks.PileRunner.
+
+(* For every script (commands with scripted TryLock answers) and every fuel,
+   the calls the model runner makes satisfy the monitor [pile_p] that Corr.v
+   evaluates on the code's recorded calls ... *)
+Theorem pile_runner_satisfies_monitor : forall fuel script,
+  pile_viol 0 ([], []) (model_obs fuel [] script) = VOk.
+Proof. exact PileRunner.pile_runner_satisfies_monitor. Qed.
+Print Assumptions pile_runner_satisfies_monitor.
+
+(* ... hence whenever the code's calls equal the model's (no mismatch), the
+   monitor holds on the code's trace: a pile violation can only be reported
+   together with a mismatch. *)
+Theorem pile_match_implies_monitor : forall obs,
+  pile_mism 0 [] obs = VOk -> pile_viol 0 ([], []) obs = VOk.
+Proof. exact PileRunner.pile_match_implies_monitor. Qed.
+Print Assumptions pile_match_implies_monitor.
+
+(* ---- lock-class order outside LockPile (Locks/Order.v) ----------------------- *)
+From VF Require Import Locks.Order.
+From Coq Require Import Relations.
+
+(* The executable check the generated obligation [repo_lock_order_acyclic]
+   runs on the graph extracted from the sources is sound: no lock class
+   reaches itself through "acquired while holding" edges ... *)
+Theorem acyclic_sound : forall g, acyclic g = true ->
+  forall v, ~ clos_trans string (edge g) v v.
+Proof. exact Order.acyclic_sound. Qed.
+Print Assumptions acyclic_sound.
+
+(* ... and if every (held class, awaited class) pair of every thread is an
+   edge of such a graph, no non-empty set of threads can each be blocked on a
+   mutex held inside the set. *)
+Theorem order_no_deadlock : forall (thread : Type) (holds waits : thread -> string -> Prop) g,
+  acyclic g = true ->
+  (forall t c1 c2, holds t c1 -> waits t c2 -> edge g c1 c2) ->
+  forall S : thread -> Prop, (exists t, S t) ->
+  ~ (forall t, S t -> exists c t', waits t c /\ holds t' c /\ S t').
+Proof. exact Order.order_no_deadlock. Qed.
+Print Assumptions order_no_deadlock.
